@@ -1576,7 +1576,7 @@ func c16Text(r *rand.Rand, toks []string) (text string, off, end []int) {
 }
 
 func c16(c *Ctx) {
-	c.Rule = "(1) unit: random action strings ($$, $N, $name, ${id.prop}, self[N], left()/leftRaw()/first()/last(), malformed forms, numbers around MaxPos, overflowing and signed numbers) over random ActionVars (injective Remap with gaps for symbols without position, absent positions, multi-position aliases, typed and untyped positions, mid-rule environments) through the real gen.goParserAction vs the Lean mirror, and random byte strings through gen.parseMeta; (2) every rule of randomly generated grammars compiled by the real compiler: leaves of the expanded rule expression vs real RHS / Remap / SymRefCount / extracted mid-rule nonterminals; the hypotheses of the theorems (distinct positions, commands see only earlier positions) are checked on these; (3) end to end: grammars with 2-4 typed nonterminals whose rules mix symbols, aliases, X?, (…)?, nested choices with aliases spanning alternatives, lists (+,*, separator, with body actions), mid-rule actions (also inside alternatives) and state markers; every action logs fmt.Sprintf of 2-5 references ($N, $name, offsets, first()/last()/left(), self[N]) plus the real parser stack; generated by the real generator, built in one batch; sentences derived from the SOURCE grammar with random spacing; the logged values and the returned start value are compared with the source-level prediction (no Remap involved) and, per executed action, the real stack + real ActionVars go to the Lean evaluator; non-trivial = action instance with an absent reference, a mid-rule/list-body action or a multi-position alias; distinct by (grammar, action, values)"
+	c.Rule = "(1) unit: random action strings ($$, $N, $name, ${id.prop}, self[N], left()/leftRaw()/first()/last(), malformed forms, numbers around MaxPos, overflowing and signed numbers) over random ActionVars (injective Remap with gaps for symbols without position, absent positions, multi-position aliases, typed and untyped positions, mid-rule environments) through the real gen.goParserAction vs the Lean mirror, and random byte strings through gen.parseMeta; (2) every rule of randomly generated grammars compiled by the real compiler: leaves of the expanded rule expression vs real RHS / Remap / SymRefCount / extracted mid-rule nonterminals; the hypotheses of the theorems (distinct positions, commands see only earlier positions) are checked on these; (3) end to end: grammars (half of them declaring a %flag, so that the template instantiation pass runs) whose terminals and 2-4 nonterminals carry DIFFERENT Go value types (string, int, *TV; lexer actions and rule actions produce recognisable values of the declared type, printed with their dynamic type), whose rules mix symbols, aliases, X?, (…)?, nested choices with aliases spanning alternatives (also aliased choices of differently typed single symbols whose VALUE is read), values read at the positions that also exist inside an inline list element, lists (+,*, separator, with body actions), mid-rule actions (also inside alternatives) and state markers; every action logs fmt.Sprintf of 2-5 references ($N, $name, offsets, first()/last()/left(), self[N]) plus the real parser stack; generated by the real generator, built in one batch; sentences derived from the SOURCE grammar with random spacing; the logged values and the returned start value are compared with the source-level prediction (no Remap involved) and, per executed action, the real stack + real ActionVars go to the Lean evaluator; non-trivial = action instance with an absent reference, a mid-rule/list-body action or a multi-position alias; distinct by (grammar, action, values)"
 	c16Unit(c)
 
 	nG := c.N(12, 120)
